@@ -460,6 +460,42 @@ def r13_generator_answers_for_the_line_asked(ctx):
            "preamble only (`stop=0`) announces and sends no padding0 at all", path=None if ok else render_path(gen, p)[:10])
 
 
+def r14_session_state_is_born_with_the_session(ctx):
+    """the state a session numbers and gates its packets with (packet counter, stream-id allocator, buffering flag, role, scheme
+    cell, locks) is created by its constructor and is never *replaced* afterwards: the only fields a `&mut self` method may
+    assign are the two pre-start settings (`on_new_stream`, `server_settings`).  A setter that swaps in a shared counter makes
+    the second session of a client start numbering where the first one stands — past `stop`, so its first packets go out bare"""
+    ALLOWED = ("on_new_stream", "server_settings")
+    bad = []
+    n = 0
+    for key, body in ctx.P.scan():
+        if key.startswith(("anytls_", "util::cert", "util::tls")):
+            continue
+        fn = key.split("::{closure")[0].split("::")[-1]
+        if key.startswith("session::session::Session::") and fn.startswith("new"):
+            continue
+        for bi in sorted(body.reachable()):
+            for st in body.blocks[bi]["stmts"]:
+                if st["s"] != "assign" or not st["place"]["proj"]:
+                    continue
+                pr = st["place"]["proj"]
+                ty = body.lty(st["place"]["local"])
+                k = 0
+                while ty.get("k") == "ref" and k < len(pr) and pr[k]["p"] == "deref":
+                    ty = ty.get("inner", {})
+                    k += 1
+                # a field of a Session value (`self.x = ..` in a &mut self method, `session.x = ..` where such a method was spliced in)
+                if ty.get("adt") == "session::session::Session" and k < len(pr) and pr[k]["p"] == "field" and pr[k].get("name") and k == len(pr) - 1:
+                    n += 1
+                    if pr[k]["name"] not in ALLOWED:
+                        bad.append((ctx.P.owner(key), pr[k]["name"], st["span"]["line"]))
+    ctx.floor("R05.14", "field assignments through &mut self in Session", n, 2)
+    ctx.ob("R05.14", "Session:per-session-state-is-never-replaced", not bad, "src/session/session.rs:%s" % bad[0][2] if bad else "",
+           "after construction only on_new_stream / server_settings are assigned" if not bad else
+           "%s assigns `self.%s` after construction: state that belongs to one session (its packet numbering / id allocation / mode) can be replaced — e.g. by a counter shared between sessions, so that a "
+           "later session starts past `stop` and sends its first packets unpadded" % (bad[0][0].split("::")[-1], bad[0][1]))
+
+
 def run(ctx):
     from . import C09 as _C09s
     _C09s.r10_constructor_siblings(ctx)   # both roles start a session in the same state (counter 0, unbuffered, ids from 1): sibling cross-check of the constructors
@@ -476,6 +512,7 @@ def run(ctx):
     C19.r2_new_sessions(ctx)   # the preamble (line 0) and the session (lines 1..) are given one and the same scheme object
     r10_scheme_parse(ctx)
     r13_generator_answers_for_the_line_asked(ctx)
+    r14_session_state_is_born_with_the_session(ctx)
     from . import C08 as _C08w, C11 as _C11w
     _C08w.r8_buffered_sinks_are_flushed(ctx)   # a buffering wrapper left around the transport merges the records of a packet into one write: the sizes on the wire are no longer the drawn ones
     _C11w.r5_writer_users(ctx)    # every byte that reaches the transport goes through the shaping write path: no second user of the writer
